@@ -481,4 +481,51 @@ def setDefaults (allowDefaultOwner : Bool) (v : List Str) : R CapSet :=
   | .ok s =>
     if !(antiOwnerS ∈ s) && !allowDefaultOwner then CapSet.add s antiOwnerS else .ok s
 
+/-! ## 9. which message reaches the gate at a re-dispatch site
+
+Every site that runs a command builds `Proxy(irc, msg, tokens)` (inventory `Gen.proxySites`); the
+proxy's constructor recomputes `msg.channel` from `msg.args[0]` (`Irc._setMsgChannel`), and the gate
+reads `msg.prefix` / `msg.channel` of that message.  What differs between the sites is WHICH message
+they pass. -/
+
+/-- the two fields of an `IrcMsg` the proxy / gate use: `prefix` and `args[0]` -/
+structure RawMsg where
+  pfx : Str
+  target : Str
+deriving DecidableEq, Repr
+
+/-- `Irc._setMsgChannel` for a PRIVMSG/NOTICE: unless `strictRfc`, leading `statusmsg` characters
+(ISUPPORT STATUSMSG, e.g. `@#chan`) are stripped; the result is the channel when it is one -/
+def msgChannel (statusmsg : Str) (strict : Bool) (target : Str) : Option Str :=
+  let t := if strict then target else target.dropWhile (fun c => statusmsg.contains c)
+  if isChannel t then some t else none
+
+def RawMsg.toMsg (statusmsg : Str) (strict : Bool) (r : RawMsg) : Msg :=
+  { pfx := r.pfx, channel := msgChannel statusmsg strict r.target }
+
+inductive Site
+  /-- `Owner.doPrivmsg`: the incoming message itself (direct and plugin-qualified calls) -/
+  | owner
+  /-- `evalArgs`: a nested `[…]`, a piped command, a command with a nested argument -/
+  | nested
+  | aka | alias | apply | cif
+  /-- `Utilities.let`: `IrcMsg(msg=msg)`, a copy with the same prefix and args -/
+  | let_
+  /-- `Network.command` / `cmdall`: the same message, handed to another network's Irc -/
+  | netcommand
+  /-- `Admin.acmd`: `msg.args[0] = channel` on a tuple raises TypeError before any dispatch -/
+  | acmd
+  /-- `Scheduler.add` / `repeat`: the message stored when the event was created -/
+  | scheduled
+  /-- `MessageParser`: the message that matched the stored regexp (the speaker's) -/
+  | trigger
+deriving DecidableEq, Repr
+
+/-- the message handed to `Proxy(irc, msg, tokens)` at a site: `cur` = the message being handled when
+the site runs, `stored` = the message kept in the Scheduler event; `none` = nothing is dispatched -/
+def siteMsg : Site → RawMsg → RawMsg → Option RawMsg
+  | .scheduled, _, stored => some stored
+  | .acmd, _, _ => none
+  | _, cur, _ => some cur
+
 end C01
